@@ -33,6 +33,10 @@ func runC03(c *Ctx) {
 	ruleRecoveryVisitsAll(c, "C03.10")
 	ruleSentinelWrapped(c, "C03.12", "storage")
 	ruleStampHasRecord(c, "C03.13")
+	ruleNoRedundantSwitchBreak(c, "C03.14", "storage", "engine")
+	ruleOpenFlags(c, "C03.15")
+	ruleCapabilityPresent(c, "C03.16")
+	ruleReplaySkipsOnlyOnPageLSN(c, "C03.17")
 	ruleErrorsNotDropped(c, "C03.11", "storage.(*BTree).insert", "storage.(*RelationService).Insert")
 }
 
